@@ -6,7 +6,8 @@
 //	x.Lock()            -> __simrt.Lock(x.Lock, x.TryLock, site)      (also RLock/TryRLock)
 //	x.Unlock()          -> __simrt.Unlock(x.Unlock, site)             (also RUnlock, also in defer)
 //	x.TryLock()         -> __simrt.Try(x.TryLock, site)
-//	atomic.F(a, b)      -> __simrt.Y(site, atomic.F)(a, b)            (functions and methods of sync/atomic)
+//	atomic.F(p, b)      -> atomic.F(__simrt.YA(site, p), b)            (functions of sync/atomic)
+//	x.v.Store(b)        -> __simrt.YA(site, &x.v).Store(b)             (methods of sync/atomic types)
 //	wg.Wait()           -> __simrt.Block(wg.Wait, site)               (sync.WaitGroup)
 //	go f(a)             -> go __simrt.Go(f)(a)
 //
@@ -505,8 +506,41 @@ func (fc *fileCtx) call(c *ast.CallExpr, parent ast.Node, handled map[ast.Expr]b
 	handled[c.Fun] = true
 	switch recv {
 	case "atomic":
-		fc.insert(c.Fun.Pos(), simrtName+".Y(\""+fc.site(c.Pos(), "A")+"\", ")
-		fc.insert(c.Fun.End(), ")")
+		// The call itself stays a direct call (a call through a function value would lose the
+		// caller's frame in race reports); the scheduling point is the evaluation of the first
+		// argument (package functions: the address) or of the receiver (methods of atomic types).
+		site := "\"" + fc.site(c.Pos(), "A") + "\""
+		sel, isSel := unparen(c.Fun).(*ast.SelectorExpr)
+		if isSel && fc.info.Selections[sel] != nil {
+			if fc.info.Selections[sel].Kind() != types.MethodVal {
+				fc.errf(c.Pos(), "call of sync/atomic method %s through a method expression cannot be instrumented", name)
+				return
+			}
+			tv, ok := fc.info.Types[sel.X]
+			if !ok {
+				fc.errf(c.Pos(), "receiver type of sync/atomic method %s unknown", name)
+				return
+			}
+			if _, isPtr := tv.Type.Underlying().(*types.Pointer); isPtr {
+				fc.insert(sel.X.Pos(), simrtName+".YA("+site+", ")
+			} else {
+				fc.insert(sel.X.Pos(), simrtName+".YA("+site+", &")
+			}
+			fc.insert(sel.X.End(), ")")
+		} else {
+			if len(c.Args) == 0 {
+				fc.errf(c.Pos(), "sync/atomic.%s called without arguments: rewriter needs an update", name)
+				return
+			}
+			if tv, ok := fc.info.Types[c.Args[0]]; ok {
+				if _, tuple := tv.Type.(*types.Tuple); tuple {
+					fc.errf(c.Pos(), "sync/atomic.%s called with a multi-value argument cannot be instrumented", name)
+					return
+				}
+			}
+			fc.insert(c.Args[0].Pos(), simrtName+".YA("+site+", ")
+			fc.insert(c.Args[0].End(), ")")
+		}
 		fc.rep.Atomics++
 	case "Mutex", "RWMutex":
 		sel, ok := unparen(c.Fun).(*ast.SelectorExpr)
